@@ -410,9 +410,10 @@ impl Prop for C11 {
         // (a) operator sweep, ints: all boundary pairs for quick on a sub-grid, plus randoms
         let ints = crate::rng::INT_BOUNDARY;
         for (name, _) in BINOPS {
-            let n = 1600 * scale;
+            // every pair of boundary values in both tiers (a defect at one pair, e.g. MIN / -1, must not depend on the seed), then randoms
+            let n = ints.len() * ints.len() + if tier == Tier::Quick { 200 } else { 32000 };
             for k in 0..n {
-                let (a, b) = if tier == Tier::Thorough && k < ints.len() * ints.len() { (ints[k / ints.len()], ints[k % ints.len()]) } else { (rng.int_boundary(), rng.int_boundary()) };
+                let (a, b) = if k < ints.len() * ints.len() { (ints[k / ints.len()], ints[k % ints.len()]) } else { (rng.int_boundary(), rng.int_boundary()) };
                 let e = Sexp::app("bin", vec![Sexp::atom(*name), Sexp::app("i", vec![Sexp::int(a)]), Sexp::app("i", vec![Sexp::int(b)])]);
                 out.push(Case::search(Sexp::app("specfold", vec![e.clone()])).tag(format!("spec-int-{name}")));
                 out.push(Case::corr(Sexp::app("fold", vec![e])).tag(format!("sweep-int-{name}")));
